@@ -340,6 +340,15 @@ def build_model(func: Func, mode: dict[str, Any]) -> Model:
                     s = env[recv]
                     env[recv] = Seq(s.call, s.owner, s.method, not s.reversed, s.record, s.targets)
                     continue
+                if recv == m.worklist and c.func.attr == "reverse" and not c.args and not in_main:
+                    # the worklist itself is reversed in place before the loop starts: what was put so far sits in the opposite order
+                    if any(p.seq is None for p in sink if p.container == recv) or sum(1 for p in sink if p.container == recv) != 1:
+                        raise Unsupported("the worklist is reversed in place after more than one seeding step", c)
+                    for k_, p in enumerate(sink):
+                        if p.container == recv and p.seq is not None:
+                            s_ = p.seq
+                            sink[k_] = Put(p.container, p.side, Seq(s_.call, s_.owner, s_.method, not s_.reversed, s_.record, s_.targets), p.record, p.targets, p.node)
+                    continue
                 if recv == m.worklist and c.func.attr in ("append", "appendleft", "extend", "extendleft", "insert"):
                     handle_put(c, recv, c.func.attr, env, loop_ctx, sink)
                     continue
